@@ -340,3 +340,25 @@ func (r *Report) importObs(w *World, run func(*Report), fromRule, toRule string)
 	}
 	return n
 }
+
+// importRules adopts the obligations of several rules of another rule set under
+// one rule name, keeping the source rule in the key.
+func (r *Report) importRules(w *World, run func(*Report), toRule string, fromRules ...string) int {
+	tmp := NewReport(r.Prop, r.Tier)
+	run(tmp)
+	want := map[string]bool{}
+	for _, f := range fromRules {
+		want[f] = true
+	}
+	n := 0
+	for _, o := range tmp.Obs {
+		if !want[o.Rule] {
+			continue
+		}
+		o.Key = toRule + ":" + o.Key
+		o.Rule = toRule
+		r.Obs = append(r.Obs, o)
+		n++
+	}
+	return n
+}
